@@ -16,8 +16,61 @@ META = {
 
 
 def run(ctx):
-    return sworld.run_static(
+    import random
+    from vlib import canon, Inconclusive
+    sections = ["lookup", "search", "each", "refs", "areas", "rels", "traverse", "problems"]
+    sworld.run_static(
         ctx, "C02", 1, variants=[{"impl": "diff", "cores": 2, "max": (45, 600)}],
-        sections=["lookup", "search", "each", "refs", "areas", "rels", "traverse", "problems"],
-        rule="every source TLC enumerates for scenario 1 built twice (basic, compact) and all reads compared; distinct = source",
-        max_cases=ctx.pick(500, None))
+        sections=sections, rule="", max_cases=ctx.pick(500, None), finish=False)
+    # OSM-shaped inputs (OSMMap.tla): way ids and relation ids collide, members are missing, ways are closed / open
+    binary = ctx.go_build("vh-world")
+    run = ctx.tlc("MCOSMMap", "MCOSMMap.cfg", timeout=1500, workers=4)
+    exported = run.lines.get("CASE", [])
+    qs = run.lines.get("QUERIES", [None])[0]
+    keys = run.lines.get("KEYS", [None])[0]
+    ids = run.lines.get("IDS", [None])[0]
+    if not exported or qs is None:
+        raise Inconclusive("OSMMap exported nothing")
+    rng = random.Random(ctx.seed * 7 + 1)
+    # prefer inputs in which an id is used by a closed way and by a multipolygon relation at once
+    def collides(c):
+        ways = c["input"]["ways"]
+        rels = c["input"]["rels"]
+        for i, r in enumerate(rels):
+            if r["type"] != "-" and r["tags"].get("type") == "multipolygon" and i < len(ways):
+                w = ways[i]["nodes"]
+                if len(w) > 2 and w[0] == w[-1]:
+                    return True
+        return False
+    pri = [c for c in exported if collides(c)]
+    rest = [c for c in exported if not collides(c)]
+    rng.shuffle(pri)
+    rng.shuffle(rest)
+    chosen = (pri + rest)[:ctx.pick(40, 576)]
+    cases = []
+    for c in chosen:
+        k = dict(c)
+        k.update({"id": len(cases), "impl": "diff", "cores": 2, "keys": keys, "ids": ids, "queries": qs, "sections": sections})
+        cases.append(k)
+    vs = ctx.run_cases(binary, "osm", cases, timeout_ms=240000, name="osmdiff")
+    for v in vs:
+        ctx.evaluations += 1
+        c = cases[v["id"]]
+        ctx.distinct_cases.add(canon(["osmdiff", c["input"]]))
+        if v.get("ok"):
+            continue
+        ms = ((v.get("obs") or {}).get("mismatches")) if isinstance(v.get("obs"), dict) else None
+        rep = {"input": c["input"]}
+        if ms:
+            for m in ms:
+                ctx.fail(m["key"], "osm input: [%s] %s" % (m["section"], m["msg"]), dict(rep, mismatch=m))
+        else:
+            ctx.fail(v.get("key") or "unknown", "osm input: %s" % v.get("msg", ""), dict(rep, verdict=v))
+    ctx.traces_validated += len(cases)
+    return ctx.finish(
+        "model_checking",
+        rule="every StaticWorld scenario 1 source and OSMMap input (colliding way/relation ids first) built twice (basic, "
+             "compact) and all reads compared; distinct = source / input",
+        assumptions=["reference-family results compared as sets", "queries about absent features and FindAreasByPoint of "
+                     "non-points are not compared (unspecified)"],
+        exhaustive=not ctx.quick)
